@@ -2,8 +2,8 @@
 from reg._common import COMMON_ASSUME
 
 ENTRY = {
-    'lean_files': ['Tables/C02.lean', 'Props/C02.lean', 'Props/C02Pipeline.lean', 'Props/C02Concrete.lean', 'Props/C02Newton.lean'],
-    'lemma_files': ['Lemmas/NewtonGate.lean', 'Model/Newton.lean', 'Lemmas/Solve2x2.lean', 'Lemmas/Lipschitz.lean', 'Lemmas/EvalBary.lean', 'Lemmas/Bridge.lean',
+    'lean_files': ['Tables/C02.lean', 'Props/C02.lean', 'Props/C02Pipeline.lean', 'Props/C02Concrete.lean', 'Props/C02Newton.lean', 'Props/C02Rounding.lean'],
+    'lemma_files': ['Lemmas/RoundingNewton.lean', 'Lemmas/RoundingDeriv.lean', 'Lemmas/RoundingMore.lean', 'Lemmas/Rounding.lean', 'Lemmas/NewtonGate.lean', 'Model/Newton.lean', 'Lemmas/Solve2x2.lean', 'Lemmas/Lipschitz.lean', 'Lemmas/EvalBary.lean', 'Lemmas/Bridge.lean',
                     'Lemmas/Shift.lean', 'Lemmas/VS.lean', 'Model/Solve2x2.lean', 'Model/Curve.lean', 'Model/Basic.lean'],
     'script': 'props/c02.py',
     'rule': 'cases = (ordered pair of planar control nets of degree 1..8, strategy GEOMETRIC|ALGEBRAIC, route Curve.intersect | '
@@ -21,7 +21,7 @@ ENTRY = {
                 'proved (any ordered field, both variants, unbounded): every parameter pair returned by the model of all_intersections - through check_lines, endpoint_check / tangent_bbox_intersection, from_linearized + full Newton, or coincident_parameters - lies in the unit square (C02Pipeline.params_in_unit_square over abstract primitives with contract PrimsOK; C02Concrete.concrete_params_in_unit_square for the concrete primitives of Model/GeometricInst with the library constants); add_intersection only appends',
                 'proved, exact arithmetic: solve2x2 exact in both pivot branches / singular iff det = 0 / unique; the Jacobian of newton_simple is the hodograph; newtonIterate_converged_cases (a converged run left through the exact-zero exit or the small-step exit, for any solver / cut / rounding / fuel); simple_exit_residual + simple_converged_residual: on the simple-root route the returned pair has residual <= 2 ratioSq (C1 M1 + C2 M2) (second-order Taylor bound with explicit Lipschitz constants from the control polygon); with a rounding of the iterate an extra eps (n1 D1 + n2 D2)',
                 'proved negative: the double-root (Gauss-Newton) exit gives NO residual bound - three kernel-decided counterexamples (C02Newton.double_root_exit_no_bound_counterexample*), one of them the listed finding F-L; so for tangential inputs the property rests on the oracle runs and is known to fail there',
-                'not proved: the binary64 defect of the linear solve and of the evaluations inside the exit test (the theorems are in exact arithmetic with an explicit rounding of the iterate only); tied instead by the end-to-end correspondence of the Lean pipeline model with both implementations, which the C03, C18 and C20 checks run on every case (their evidence lists the agreement counts)',
+                'rounded arithmetic (Props/C02Rounding, standard model): solve2x2 in both pivot branches (3k+7 / 2k+4 roundings under lower bounds on the pivot and on the eliminated denominator), the six numbers of newton_simple (k = 3 max(n1,n2)+3), one whole Newton step, the exit test ((1-u)^2 |d|^2 < (1+u)^3 ratio^2 |p|^2, factor 1+6u), and a floating-point version of the exit residual bound; NOT proved: the whole newton_iterate loop in rounded arithmetic (only one step and the exit test); tied by the end-to-end correspondence of the Lean pipeline model with both implementations, which the C03, C18 and C20 checks run on every case',
                 'enforced constant 2^-26 * size instead of "order of 2^-30 * size": the tangential Newton exit accepts closest-approach points with a gap of about 2^-27 * size; the measured distribution of log2(residual/size) is in the evidence',
     ],
     'trusted_base': [
